@@ -126,6 +126,26 @@ pub fn generate_with(ctx: &mut Ctx, which: Which, tweak: impl FnOnce(&mut scen::
     // (C06/C07: a run of adjacent chunks of more than a MiB as stored needs a source of MiBs)
     let big = gen::chance(1, if ctx.tier == crate::harness::Tier::Thorough { 40 } else if matches!(which, Which::C06) { 200 } else { 600 });
     let max_len = if big { 3 << 20 } else { 64 * 1024 };
+    // one in 600 (C06: 300): tens of thousands of tiny chunks, so that the header alone is more
+    // than a MiB -- more than one buffer's worth for anything that reads it
+    if !big && matches!(which, Which::C06 | Which::C02) && gen::chance(1, if matches!(which, Which::C06) { 300 } else { 600 }) {
+        simkit::count("probe:header-larger-than-1MiB");
+        let mut spec = scen::gen_compress_spec(false, false);
+        tweak(&mut spec);
+        spec.cfg = gen::Cfg { algo: gen::Algo::RollSum, window: 16, min: 8, max: 256, bits: 4, avg: 32 };
+        spec.comp = gen::Comp::None;
+        spec.hash_len = 64;
+        spec.metadata.clear();
+        let sspec = gen::SourceSpec { kind: "random", len: (3 << 19) + gen::draw(1 << 19) as usize, seed: gen::t(|t| t.seed64()), param: 0 };
+        let source = Arc::new(gen::expand(&sspec));
+        let (wname, outcome, archive, sched, short) = crate::props::c01::compress_with(&spec, &source, 2);
+        let desc = json!({"writer": wname, "options": spec.json(), "source": sspec.json(), "schedule": sched, "short_read_pct": short});
+        if !outcome.is_success() {
+            ctx.fail(&format!("compress-lib:{}", outcome.class()), format!("{} compress of a valid scenario ended with {}; {}", wname, outcome.short(), desc));
+            return None;
+        }
+        return generate_from(ctx, which, Made { spec, source, archive, writer: wname, desc });
+    }
     let made = crate::props::c01::make_archive_with(ctx, max_len, big, None, tweak)?;
     generate_from(ctx, which, made)
 }
